@@ -9,13 +9,25 @@
           26 = C18_tsv_simple: two-column cluster table does not read back
           27 = C18_python: parameter file does not read back equal
           28 = C18_int_text / C18_float_text / C18_nonnumeric: _try_make_number types a cell wrongly
-          3  = input outside the stated regime (harness bug) *)
+               (with CPython's int_max_str_digits limit: Lim.v)
+          3  = input outside the stated regime (harness bug)
+   Edge cases (InEdge: a path that does not exist, an empty file, a table without rows, an integer
+   beyond the int_max_str_digits guard) are outside the statement and judged by code 1 alone. *)
 From Coq Require Import ZArith List Bool String Ascii.
-From PV Require Export Base.NpSearch C18.Model C18.Spec C18.Ref.
+From PV Require Export Base.NpSearch C18.Model C18.Spec C18.Ref C18.Lim.
 Import ListNotations.
 Open Scope Z_scope.
 
+(* inputs outside the statement, kept so that every branch of the anchored functions is compared with
+   the model.  EBigInt w z: the integer z (beyond the limit) given to write_tsv (w = 0), _write_tsv_simple
+   (1), write_python (2), save_json as a value (3) or as a key (4) *)
+Inductive edge :=
+| EJsonMissing | EJsonEmpty | ETsvMissing | ESimpleMissing | EPythonMissing
+| ETsvNoRows (dl : delim) (first : option string) (excl : list string) (n : Z)
+| EBigInt (w : Z) (z : Z).
+
 Inductive input :=
+| InEdge (e : edge)
 | InJson (d : list (key * pyval))
 | InTsv (dl : delim) (first : option string) (excl : list string) (n : Z) (rows : list row)
 | InSimple (dl : delim) (field : string) (data : list (Z * value))
@@ -28,11 +40,15 @@ Inductive observed :=
 | ObsSimple (field : string) (out : list (Z * cell))
 | ObsPython (d : list (string * pyval))
 | ObsNumber (c : cell)
+| ObsEmptyDict
 | ObsCrash.
 
 Record case := { cid : Z; cin : input; cobs : observed }.
 
 Definition flag (code : Z) (ok : bool) : list Z := if ok then [] else [code].
+
+(* integers of thousands of digits, for case files (Coq's parser is slow on long numerals, not on long strings) *)
+Definition zbig (neg : bool) (s : string) : Z := let v := digits_val (s2l s) in if neg then - v else v.
 
 (* strings as lists of byte codes, for case files (tabs, quotes, UTF-8) *)
 Definition sl (l : list Z) : string := l2s (map chr l).
@@ -62,10 +78,56 @@ Definition cell_text_ok (v : value) : bool := match v with VStr s => text_ok s |
 Definition num_text_ok (s : string) : bool :=
   forallb (fun c => ((32 <=? code c) && (code c <=? 126)) || ((9 <=? code c) && (code c <=? 13))) (s2l s).
 
+(* the int_max_str_digits guard on the inputs of the statement's cases *)
+Fixpoint pv_lim (v : pyval) : bool :=
+  match v with
+  | PInt z => int_in_limit z
+  | PList l => forallb pv_lim l
+  | PDict l => forallb (fun kv => pv_lim (snd kv)) l
+  | PArr _ sh _ _ => forallb int_in_limit sh
+  | _ => true
+  end.
+Definition key_lim (k : key) : bool := match k with KInt z => int_in_limit z | KStr _ => true end.
+
+(* what the model says about an edge input; None = the input is not an edge input (regime) *)
+Definition edge_expect (e : edge) : option observed :=
+  match e with
+  | EJsonMissing => Some (match load_json_path ref_codec ref_text_e FMissing with Some d => ObsJson d | None => ObsCrash end)
+  | EJsonEmpty => Some (match load_json_path ref_codec ref_text_e (FFile None) with Some d => ObsJson d | None => ObsCrash end)
+  | ETsvMissing => Some (match read_tsv_path ref_csv FMissing with Some r => ObsRows r | None => ObsCrash end)
+  | ESimpleMissing => Some (match read_simple_path ref_csv FMissing with
+                            | Some SNoFile => ObsEmptyDict
+                            | Some (SOut f d) => ObsSimple f d
+                            | None => ObsCrash
+                            end)
+  | EPythonMissing => Some (match read_python_path ref_float FMissing with Some d => ObsPython d | None => ObsCrash end)
+  | ETsvNoRows dl first excl n =>
+      Some (match read_tsv_path ref_csv (FFile (write_tsv ref_csv dl first excl n [])) with
+            | Some r => ObsRows r | None => ObsCrash end)
+  | EBigInt w z =>
+      if int_in_limit z || negb ((0 <=? w) && (w <=? 4)) then None
+      else Some ObsCrash     (* str_int_lim int_max_str_digits z = None: theorem C18_int_limit_exceeded (evaluating
+                                 str() of a 4301-digit integer in Coq's binary Z takes minutes) *)
+  end.
+Definition obs_same (x o : observed) : bool :=
+  match x, o with
+  | ObsCrash, ObsCrash => true
+  | ObsEmptyDict, ObsEmptyDict => true
+  | ObsJson a, ObsJson b => top_eqb a b
+  | ObsRows a, ObsRows b => list_eqb orow_match a b
+  | _, _ => false
+  end.
+
+(* float() overflows to inf beyond the double range: the comparison of near_dec covers it *)
 Definition check (c : case) : list Z :=
   match cin c, cobs c with
+  | InEdge e, o =>
+      match edge_expect e with
+      | Some x => flag 1 (obs_same x o)
+      | None => [3]
+      end
   | InJson d, o =>
-      if negb (wf_top_b d) then [3] else
+      if negb (wf_top_b d && forallb (fun kv => key_lim (fst kv) && pv_lim (snd kv)) d) then [3] else
       match o with
       | ObsJson out =>
           flag 1 (match load_json_text ref_codec ref_text (save_json_text ref_codec ref_text d) with Some m => top_eqb m out | None => false end) ++
@@ -74,6 +136,7 @@ Definition check (c : case) : list Z :=
       end
   | InTsv dl first excl n rows, o =>
       if negb (forallb row_ok rows && forallb (fun r => forallb (fun kv => cell_text_ok (snd kv)) r) rows &&
+               forallb (fun r => forallb (fun kv => value_in_limit (snd kv)) r) rows &&
                (1 <=? n) && (n <=? 12) &&
                (2 <=? zlen (fields_of first excl rows)) && forallb is_ident (fields_of first excl rows))
       then [3] else
@@ -88,11 +151,11 @@ Definition check (c : case) : list Z :=
       end
   | InSimple dl field data, o =>
       if negb (znodup_b (map fst data) && forallb (fun kv => simple_value_ok (snd kv) && cell_text_ok (snd kv)) data &&
-               is_ident field)
+               forallb (fun kv => int_in_limit (fst kv) && value_in_limit (snd kv)) data && is_ident field)
       then [3] else
       match o with
       | ObsSimple of out =>
-          flag 1 (match read_simple ref_csv (write_simple ref_csv dl field data) with
+          flag 1 (match read_simple ref_csv (write_simple ref_csv ref_float dl field data) with
                   | Some (mf, m) => String.eqb mf of && simple_match m out
                   | None => false
                   end) ++
@@ -100,10 +163,10 @@ Definition check (c : case) : list Z :=
       | _ => [1; 26]
       end
   | InPython d, o =>
-      if negb (py_ok d) then [3] else
+      if negb (py_ok d && forallb (fun kv => pv_lim (snd kv)) d) then [3] else
       match o with
       | ObsPython out =>
-          flag 1 (match read_python (write_python d) with
+          flag 1 (match read_python ref_float (write_python ref_float d) with
                   | Some m => py_spec_b m out
                   | None => false
                   end) ++
@@ -113,7 +176,7 @@ Definition check (c : case) : list Z :=
   | InNumber s, o =>
       if negb (num_text_ok s) then [3] else
       match o with
-      | ObsNumber c => let ok := cell_match (try_make_number (CT s)) c in flag 1 ok ++ flag 28 ok
+      | ObsNumber c => let ok := cell_match (try_make_number_lim int_max_str_digits (CT s)) c in flag 1 ok ++ flag 28 ok
       | _ => [1; 28]
       end
   end.
